@@ -132,11 +132,20 @@ func TestVerifC41Toposort(t *testing.T) {
 		}
 	}
 	key := func(v int) int { return v }
+	seenCase := map[string]bool{}
+	distinct := 0
 	var samples []string
 	one := func(g c41graph, roots []int, reuse *Sorter[int, int], prior string) {
 		evals++
-		if _, c := g.reach(roots); c {
+		set, isCyc := g.reach(roots)
+		if isCyc {
 			cyc++
+		}
+		if k := fmt.Sprintf("%v|%v|%v", g, roots, reuse != nil); !seenCase[k] {
+			seenCase[k] = true
+			if len(set) >= 2 { // non-trivial: the sort has at least two nodes to order
+				distinct++
+			}
 		}
 		if evals%7001 == 3 && len(samples) < 3 {
 			samples = append(samples, fmt.Sprintf("%v roots=%v", g, roots))
@@ -231,5 +240,5 @@ func TestVerifC41Toposort(t *testing.T) {
 	for len(samples) < 3 {
 		samples = append(samples, "")
 	}
-	fmt.Printf("BOUNDED: {\"evaluations\":%d,\"distinct\":%d,\"rule\":\"every directed graph on <=%d nodes (all 2^(n*n) adjacency matrices, self-loops and cycles included; %d of the runs cyclic) with every root list of length <=2, the reversed node list and the empty list (%d exhaustive): the output holds exactly the nodes reachable from the roots, each once, and on acyclic input every node after all of its children; plus %d seeded pairs of runs on one Sorter (first run complete, abandoned by break after 1..3 nodes, or ended by a panic; second run on a random DAG on <=7 nodes judged like a fresh run)\",\"exhaustive\":true,\"bound\":\"<=%d nodes exhaustive; re-use part sampled\",\"samples\":[%q,%q,%q]}\n", evals, evals, maxN, cyc, exh, nr, maxN, samples[0], samples[1], samples[2])
+	fmt.Printf("BOUNDED: {\"evaluations\":%d,\"distinct\":%d,\"rule\":\"every directed graph on <=%d nodes (all 2^(n*n) adjacency matrices, self-loops and cycles included; %d of the runs cyclic) with every root list of length <=2, the reversed node list and the empty list (%d exhaustive): the output holds exactly the nodes reachable from the roots, each once, and on acyclic input every node after all of its children; plus %d seeded pairs of runs on one Sorter (first run complete, abandoned by break after 1..3 nodes, or ended by a panic; second run on a random DAG on <=7 nodes judged like a fresh run); distinct_nontrivial counts the distinct (graph, roots) cases with at least two reachable nodes\",\"exhaustive\":true,\"bound\":\"<=%d nodes exhaustive; re-use part sampled\",\"samples\":[%q,%q,%q]}\n", evals, distinct, maxN, cyc, exh, nr, maxN, samples[0], samples[1], samples[2])
 }
